@@ -35,8 +35,9 @@ def PV(rate, periods, payment, future=None, type=None):
     with decimal.localcontext(PV_CONTEXT) as context:
         exact = [decimal.Decimal(x) for x in (rate, periods, payment, future, type)]
         rate_, periods_, payment_, future_, type_ = exact
-        # enough digits for 1 + rate to keep those of a tiny rate
-        context.prec = 60 + max(0, -rate_.adjusted())
+        # enough digits for 1 + rate to keep those of a tiny rate, and for (1 + rate) ** periods to
+        # keep those of a tiny number of periods
+        context.prec = 60 + max(0, -rate_.adjusted()) + max(0, -periods_.adjusted())
         try:
             if rate_ == 0:
                 # the linear form; here too payment * periods alone need not be a number that a double holds
